@@ -25,13 +25,13 @@ MANIFEST = dict(
           "equals that of the object freshly constructed at the translated position; the returned object is a different object, attribute-wise equal, and shares no mutable state with the receiver or with v; v is unchanged; "
           "move(v) then move(-v) restores every attribute; a non-Vector argument raises and leaves the receiver unchanged (all seven types). Since the re-established representation invariant is the precondition of every query contract, "
           "any sequence of moves leaves every query answering as on a fresh object."),
-    note=("ConvexPolygon.move is proved for n = 3, 4 for the receiver's state (vertices, plane, centre; the returned object is what the constructor builds from the receiver's new vertices - the constructor enters by that contract); "
+    note=("ConvexPolygon.move is proved for n = 3..7 (thorough ..8) for the receiver's state (vertices, plane, centre; the returned object is what the constructor builds from the receiver's new vertices - the constructor enters by that contract); "
           "ConvexPolyhedron.move (rebuilds hash sets and pyramids) and mixed histories of 1-6 moves interleaved with deep copies and queries (==, hash, membership, intersection, measures, volume()) on all seven types, receiver and returned object "
           "against freshly constructed objects, are a labelled bounded stand-in (not counted as proved). A1, A5."),
     design_ref="DESIGN.md section 9 (C07)",
 )
 EXPLANATION = "move contracts proved attribute-wise against the fresh construction; history claims follow by induction from the re-established invariant"
-BOUNDED_ONLY = ["Geometry3D.geometry.polyhedron:ConvexPolyhedron.move", "Geometry3D.geometry.polygon:ConvexPolygon.move (n > 4, returned object)"]
+BOUNDED_ONLY = ["Geometry3D.geometry.polyhedron:ConvexPolyhedron.move", "Geometry3D.geometry.polygon:ConvexPolygon.move (n > 8, returned object)"]
 ASSUMES = ["A1", "A2", "A5", "A6"]
 
 
@@ -183,7 +183,7 @@ def _more_groups(tier):
     from props.C01 import coord_stubs
     cs = coord_stubs() + [(C.T_LENGTH, C.x_length), (C.T_NORMALIZED, C.x_normalized)]
     gs = []
-    for n in (3, 4):
+    for n in ((3, 4, 5, 6, 7) if tier == "quick" else (3, 4, 5, 6, 7, 8)):
         gs.append(Group("ConvexPolygon.move[n=%d, receiver state]" % n, polygon_move_harness(n), ["Geometry3D.geometry.polygon:ConvexPolygon.move", "Geometry3D.geometry.polygon:ConvexPolygon._get_center_point"],
                         stubs=cs, world="COORD", timeout_s=600, prove_ms=30000))
     return gs
